@@ -645,7 +645,15 @@ func (p *Prog) failArms(fn *ssa.Function, ifs []ifInfo, guard []Atom, effectSite
 					if mes := p.mergedExits(x, in); mes != nil {
 						// judged per predecessor that the fail arm can come through
 						for _, me := range mes {
-							if reach[me.pred] && me.kind != "error" {
+							fromIf := false
+							if me.pred == b {
+								for slot, sb := range b.Succs {
+									if sb == rb && !edges[Edge{b, slot, ii.site}] {
+										fromIf = true // the branch's own non-pass edge leads straight into the merged return
+									}
+								}
+							}
+							if (reach[me.pred] || fromIf) && me.kind != "error" {
 								return false, fmt.Sprintf("fail arm of %q at %s reaches a non-error exit at %s (kind %s)", ii.atom.Key, p.instrPos(ii.in), p.instrPos(in), me.kind)
 							}
 						}
@@ -702,14 +710,12 @@ func (p *Prog) mergedExits(x *TX, ret *ssa.Return) []mergedExit {
 	b := ret.Block()
 	hasPhi := false
 	for _, in := range b.Instrs {
-		switch in.(type) {
-		case *ssa.Phi:
+		if _, ok := in.(*ssa.Phi); ok {
 			hasPhi = true
-		case *ssa.Return, *ssa.DebugRef:
-		default:
-			return nil
 		}
 	}
+	// (the block may do more than return — build the response, say: what each predecessor
+	// contributes to the returned phis is still decided on the edge into the block)
 	if !hasPhi || len(b.Preds) < 2 {
 		return nil
 	}
